@@ -926,8 +926,8 @@ def rule_P5b(repo: Repo) -> RuleResult:
         # local names holding code-order selectors (single assignment from a code-order expression, not tainted)
         code_names: Dict[str, str] = {}
         for s in walk_no_nested(m.node):
-            if isinstance(s, ast.Assign) and len(s.targets) == 1 and isinstance(s.targets[0], ast.Name) \
-                    and s.targets[0].id not in tainted:
+            # (also a name that is label-ordered on another path: `if mask is not None: sel = <code order> else: sel = <label order>`)
+            if isinstance(s, ast.Assign) and len(s.targets) == 1 and isinstance(s.targets[0], ast.Name):
                 c = code_order(s.value)
                 if c:
                     code_names[s.targets[0].id] = c
@@ -936,9 +936,13 @@ def rule_P5b(repo: Repo) -> RuleResult:
                     and sub.value.id in tainted):
                 continue
             sl = sub.slice
-            if isinstance(sl, (ast.Slice, ast.Constant)) or (isinstance(sl, ast.Name) and sl.id in tainted):
+            if isinstance(sl, (ast.Slice, ast.Constant)) or (isinstance(sl, ast.Name) and sl.id in tainted and sl.id not in code_names):
                 continue
-            src = code_order(sl) or next((code_names[x] for x in _names(sl) if x in code_names), None)
+            # names of code-order selectors used as they are (a use `sel[<sort permutation>]` re-orders the selector: fine)
+            reordered_bases = {id(p.value) for p in ast.walk(sl) if isinstance(p, ast.Subscript) and isinstance(p.value, ast.Name) and (
+                _names(p.slice) & tainted or any(isinstance(a, ast.Attribute) and a.attr == "_labels_argsort" for a in ast.walk(p.slice)))}
+            plain = [x.id for x in ast.walk(sl) if isinstance(x, ast.Name) and id(x) not in reordered_bases]
+            src = code_order(sl) or next((code_names[x] for x in plain if x in code_names), None)
             if src is None:
                 continue
             n += 1
